@@ -413,10 +413,23 @@ func (w FederatingWrappedCallbacks) follow(c context.Context, a vocab.ActivitySt
 		me := streams.NewActivityStreamsActorProperty()
 		response.SetActivityStreamsActor(me)
 		me.AppendIRI(actorIRI)
-		// Set the Follow as the 'object' property.
+		// Set a copy of the Follow as the 'object' property: preparing the
+		// response for delivery removes the hidden recipients of embedded
+		// values, and the Follow itself may still have to be forwarded as
+		// it was received.
+		fm, err := streams.Serialize(a)
+		if err != nil {
+			return err
+		}
+		ft, err := streams.ToType(c, fm)
+		if err != nil {
+			return fmt.Errorf("cannot copy the follow for the response: %v", err)
+		}
 		op := streams.NewActivityStreamsObjectProperty()
 		response.SetActivityStreamsObject(op)
-		op.AppendActivityStreamsFollow(a)
+		if err := op.AppendType(ft); err != nil {
+			return err
+		}
 		// Add all actors on the original Follow to the 'to' property.
 		recipients := make([]*url.URL, 0)
 		to := streams.NewActivityStreamsToProperty()
